@@ -123,6 +123,14 @@ func replayCase(n int, c Case, ms *metricstorage.MetricStorage) Result {
 		sort.Strings(out)
 		return out
 	}
+	// a state that differs from the specification is a divergence, not a verdict: the behaviour is driven to its end
+	// without further comparisons and the property oracle judges what the consumer got
+	divSig, divDetail, divStep := "", "", 0
+	diverge := func(i int, sig, d string) {
+		if divSig == "" {
+			divSig, divDetail, divStep = sig, d, i
+		}
+	}
 	for i := 1; i < len(c.Steps); i++ {
 		st := c.Steps[i]
 		a := st["act"].([]interface{})
@@ -174,6 +182,9 @@ func replayCase(n int, c Case, ms *metricstorage.MetricStorage) Result {
 		default:
 			return bad(i, "DIV/unknown-action", op)
 		}
+		if divSig != "" {
+			continue
+		}
 		// compare (asynchronous informer deliveries: wait until the specified state is reached)
 		wantDel, wantBuf := pairs(st["delivered"]), pairs(st["buffered"])
 		wantEn := map[string]bool{}
@@ -197,16 +208,17 @@ func replayCase(n int, c Case, ms *metricstorage.MetricStorage) Result {
 			time.Sleep(300 * time.Microsecond)
 		}
 		if vm.EventsEnabled() != wantFlag {
-			return bad(i, "DIV/state/flag", fmt.Sprintf("eventsEnabled %v, specification %v", vm.EventsEnabled(), wantFlag))
+			diverge(i, "DIV/state/flag", fmt.Sprintf("eventsEnabled %v, specification %v", vm.EventsEnabled(), wantFlag))
+			continue
 		}
 		gotEn := vm.VaryingEnabled()
 		for ns, en := range gotEn {
 			if wantEn[ns] != en {
-				return bad(i, "DIV/state/enabled", fmt.Sprintf("informers of %s enabled=%v, specification %v (after %v)", ns, en, wantEn[ns], a))
+				diverge(i, "DIV/state/enabled", fmt.Sprintf("informers of %s enabled=%v, specification %v (after %v)", ns, en, wantEn[ns], a))
 			}
 		}
 		if !reflect.DeepEqual(gotDel, wantDel) || gotBufN != len(wantBuf) {
-			return bad(i, "DIV/state/events", fmt.Sprintf("delivered %v buffered %d, specification delivered %v buffered %v (after %v)", gotDel, gotBufN, wantDel, wantBuf, a))
+			diverge(i, "DIV/state/events", fmt.Sprintf("delivered %v buffered %d, specification delivered %v buffered %v (after %v)", gotDel, gotBufN, wantDel, wantBuf, a))
 		}
 	}
 	// oracle at quiescence
@@ -219,7 +231,23 @@ func replayCase(n int, c Case, ms *metricstorage.MetricStorage) Result {
 	}
 	res.Quiet = quiet
 	if !quiet {
+		if divSig != "" {
+			return bad(divStep, divSig, divDetail)
+		}
 		return res
+	}
+	if divSig != "" {
+		// let the asynchronous deliveries settle before judging
+		prev, stable := -1, 0
+		for k := 0; k < 400 && stable < 40; k++ {
+			n := len(getDelivered())
+			if n == prev {
+				stable++
+			} else {
+				prev, stable = n, 0
+			}
+			time.Sleep(5 * time.Millisecond)
+		}
 	}
 	for ns, en := range vm.VaryingEnabled() {
 		if !en {
@@ -261,6 +289,13 @@ func replayCase(n int, c Case, ms *metricstorage.MetricStorage) Result {
 		res.OK = false
 		sort.Strings(res.Sigs)
 		res.Sig = res.Sigs[0]
+		if divSig != "" {
+			res.Detail += " (the run left the specification at step " + fmt.Sprint(divStep) + ": " + divDetail + ")"
+		}
+		return res
+	}
+	if divSig != "" {
+		return bad(divStep, divSig, divDetail)
 	}
 	return res
 }
